@@ -48,7 +48,9 @@ CONTRACTS = [
 FEATURES = "rayon,serde"
 
 
-def prepare(scratch_root=None):
+def prepare(scratch_root=None, only_modules=None):
+    """only_modules: harness file names to inject (None = all).  Kani generates code for every
+    harness in the crate, so injecting only the modules a check needs shortens the build."""
     root = tempfile.mkdtemp(prefix="brood-kx-", dir=scratch_root or os.environ.get("VERIF_SCRATCH", "/tmp"))
     dst = os.path.join(root, "repo")
     subprocess.run(["rsync", "-a", "--exclude", "target", "--exclude", ".git", REPO + "/", dst + "/"], check=True)
@@ -70,12 +72,33 @@ def prepare(scratch_root=None):
     hcopy = os.path.join(root, "harness")
     shutil.copytree(HARNESS_DIR, hcopy)
     for rel, hfile, modname in MODULES:
+        if only_modules is not None and hfile not in only_modules:
+            continue
         p = os.path.join(dst, rel)
         if not os.path.exists(p):
             raise Inconclusive(f"lost anchor: {rel} missing")
         with open(p, "a") as f:
             f.write(f'\n#[cfg(kani)]\n#[path = "{os.path.join(hcopy, hfile)}"]\nmod {modname};\n')
     return root, dst
+
+
+def modules_for(filters):
+    """harness files whose module path can contain a harness matched by one of `filters`
+    (substring match on fully qualified names); None (= all) if some filter cannot be placed"""
+    need = set()
+    for flt in filters:
+        hit = False
+        for rel, hfile, modname in MODULES:
+            mod = rel[len("src/"):-len(".rs")].replace("/", "::")
+            if mod.endswith("::mod"):
+                mod = mod[:-5]
+            prefix = mod + "::" + modname + "::"
+            if prefix in flt or flt in prefix:
+                need.add(hfile)
+                hit = True
+        if not hit:
+            return None
+    return need
 
 
 def harness_file_of(hid):
